@@ -1648,6 +1648,12 @@ class Extractor:
             callid = self.fresh()
             enable = kwargs.get("enable_call")
             kws = tuple((k, v) for k, v in kwt if k != "enable_call")
+            margs = tuple(args[1:])
+            if (len(margs) == 1 and not kws and margs[0][0] == "dict" and margs[0][1]
+                    and all(k[0] == "c" and isinstance(k[1], str) and k[1].isidentifier() for k, _ in margs[0][1])):
+                # method(m, {"a": x, "b": y}) and method(m, a=x, b=y) are the same call: one spelling in the facts
+                kws = tuple(sorted((k[1], v) for k, v in margs[0][1]))
+                args = [args[0]]
             self.emit(MethodCall, node, callid=callid, callee=f, args=tuple(args[1:]), kwargs=kws, enable=enable)
             return ("ret", callid)
 
